@@ -72,6 +72,18 @@ def templates(tier="quick"):
           Stmt("n2", ex=["t"], prints=P("nonl", "n2")), Stmt("c2", ex=["t"], pool="console", prints=P("line", "c2")),
           Stmt("n3", ex=["t"], prints=None), Stmt("top", ex=["c1", "n1", "n2", "c2", "n3"], prints=P("line", "top"))]
     add("console_mix", Variant("v0", st), js=(2, 3), faults=[{"n1": {"code": 1}}, {"c1": {"code": 1}}])
+    # every kind of output held back while a console command owns the terminal (NUL bytes, escapes, 5 KB, no newline)
+    st = [Stmt("c1", ex=["s"], pool="console", prints=P("line", "c1")), Stmt("n1", ex=["s"], prints=P("nul", "n1")),
+          Stmt("n2", ex=["t"], prints=P("big", "n2")), Stmt("n3", ex=["t"], prints=P("ansi", "n3")),
+          Stmt("n4", ex=["s"], prints=P("esc", "n4")), Stmt("top", ex=["c1", "n1", "n2", "n3", "n4"], prints=P("nul", "top"))]
+    add("console_bytes", Variant("v0", st), js=(3,), faults=[{"n1": {"code": 1}}, {"n2": {"code": 2}, "n3": {"code": 3}}])
+    # the build is stopped by an error found while *finishing* a command (a dyndep file built just now does not parse)
+    # while a console command runs and finished commands' output is being held back
+    st = [Stmt("c1", ex=["s"], pool="console", prints=P("line", "c1")), Stmt("b", ex=["t"], prints=P("line", "b")),
+          Stmt("dd", ex=["dd.in"], copy=True, prints=P("multi", "dd")),
+          Stmt("d", ex=["in"], oo=["dd"], dyndep="dd", prints=P("line", "d")), Stmt("top", ex=["c1", "b", "d"], prints=P("line", "top"))]
+    add("console_finish_error", Variant("v0", st), js=(3, 4), files={"dd.in": "ninja_dyndep_version = 1\nbuild d: dyndep |\n  garbage\n"},
+        tags=["no-conformance"])   # an aborting ninja abandons real processes at a moment no orchestrator controls
     # dyndep additions: totals grow mid-build
     dd = dyndep_text([("out", [], ["x"], False)])
     st = [Stmt("dd", ex=["dd.in"], copy=True), Stmt("x", ex=["s"], prints=P("line", "x")),
